@@ -263,6 +263,17 @@ def step(ctx, op, post, arr, dirpath, tabs, variant, case):
     return ok, arr
 
 
+def recheck_held(ctx, held, now, case):
+    """An array that an earlier cryomap.read / invert_contrast returned must still hold what it held when it was
+    returned, whatever was called afterwards (no result aliases library state or a later result)."""
+    for step_no, op, obj, snap in held:
+        if obj.shape != snap.shape or not np.array_equal(obj, snap):
+            ctx.fail("C11_RoundTrip", "the array returned by call %d (%s %s) changed after later calls (inspected after call %d)" % (
+                step_no, op["name"], op.get("file"), now), case, dict(op_sig(op), reinspected=True))
+            return False
+    return True
+
+
 def fresh_dir(ctx, tag):
     d = os.path.join(ctx.sub("maps"), "%s_%d" % (tag, os.getpid()))
     shutil.rmtree(d, ignore_errors=True)
@@ -276,7 +287,19 @@ def run_transition(ctx, tr, variant, vseed):
     d = fresh_dir(ctx, "tr")
     build_disk(d, disk_of(tr["pre"]), tabs)
     arr = build_array(tr["pre"]["mem"], tabs)
-    step(ctx, tr["op"], tr["post"], arr, d, tabs, variant, case)
+    ok, ret = step(ctx, tr["op"], tr["post"], arr, d, tabs, variant, case)
+    if ok and tr["op"]["name"] in ("read", "invert") and isinstance(ret, np.ndarray):
+        # a second, unjudged call on a same-shaped map with other voxels; then the first result is inspected again
+        from cryocat import cryomap
+        snap = ret.copy()
+        src = disk_of(tr["pre"])[tr["op"]["file"]]
+        other = os.path.join(d, "zz_other." + tr["op"]["file"].rsplit(".", 1)[-1])
+        vals = [interp(c, tabs) for c in reversed(src["data"])]
+        if src["mode"] != "f32":
+            vals = [int(v) for v in vals]
+        (parsers.write_em if src["fmt"] == "em" else parsers.write_mrc)(other, tuple(src["dims"]), PARSER_NAME[src["mode"]], vals)
+        core.call_guarded(cryomap.read, other, transpose=tr["op"].get("tr", True))
+        recheck_held(ctx, [(1, tr["op"], ret, snap)], 2, case)
     ctx.ran(case)
     shutil.rmtree(d, ignore_errors=True)
 
@@ -286,12 +309,15 @@ def run_behaviour(ctx, hist, variant, vseed):
     tabs = token_tables(vseed, max(max_token(st["post"]) for st in hist))
     d = fresh_dir(ctx, "bh")
     arr = build_array(hist[0]["post"]["mem"], tabs)
+    held = []
     for i, st in enumerate(hist[1:], start=1):
         if st["op"]["name"] == "end":
             break
         ok, arr = step(ctx, st["op"], st["post"], arr, d, tabs, variant + i, case)
-        if not ok:
+        if not ok or not recheck_held(ctx, held, i, case):
             break
+        if st["op"]["name"] in ("read", "invert") and isinstance(arr, np.ndarray):
+            held.append((i, st["op"], arr, arr.copy()))
     ctx.ran(case)
     shutil.rmtree(d, ignore_errors=True)
 
@@ -407,6 +433,8 @@ def run_float(ctx, cases):
                         where = np.argwhere(back == v) if isinstance(back, np.ndarray) and back.ndim == 3 else []
                         q = [int(x) for x in where[0]] if len(where) else [-1, -1, -1]
                         ms.append({"p": list(p), "q": q, "off": mm[v][0], "cnt": len(where)})
+                    if isinstance(back, np.ndarray):
+                        stage.append((back, back.copy()))
                     shp = list(back.shape) if isinstance(back, np.ndarray) else []
                     events.append({"name": "read", "tr": case["tr"], "hdr": [doc["nx"], doc["ny"], doc["nz"]],
                                    "shape": list(shape), "shape_out": shp,
@@ -462,6 +490,9 @@ def run_float(ctx, cases):
                     _, err = core.call_guarded(cryomap.write, arr * 2, path, overwrite=False)
                     after = open(path, "rb").read() if os.path.isfile(path) else b""
                     events.append({"name": "refuse", "api": "write", "raised": err is not None, "unchanged": before == after})
+        if len(stage) > 1:
+            events.append({"name": "reinspect", "unchanged": bool(stage[1][0].shape == stage[1][1].shape and
+                                                                  np.array_equal(stage[1][0], stage[1][1]))})
         traces.append({"id": case["id"], "ev": events})
         metas.append(case)
         ctx.ran(case)
